@@ -4,7 +4,7 @@
 export GOFLAGS=-mod=mod GOPROXY=off GOSUMDB=off GOTOOLCHAIN=local
 W=${1:-6}
 PROPS="C01 C02 C03 C04 C05 C06 C07 C08 C09 C10 C11 C12 C13 C14 C15 C16 C19 C20"
-find /tmp/mut/src -name '*.go' | sort > /tmp/mut/all.txt
+find /tmp/mut/src -type f -name '*.go' | sort -R --random-source=<(yes) > /tmp/mut/all.txt
 : > /tmp/mut/results.tsv
 worker() {
   w=$1; R=/tmp/mut/w$w; rm -rf $R; mkdir -p $R/repo
@@ -17,7 +17,10 @@ worker() {
     elif ! (cd $R/repo && timeout 200 go test -vet=off -count=1 -timeout 150s ./... >/dev/null 2>&1); then res="killed-by-tests"
     else
       caught=""
-      for p in $PROPS; do
+      fn=$(echo "$desc" | awk '{print $2}' | tr -d ':')
+      PR=$(awk -F'\t' -v f="$fn" '$1==f{print $2}' /tmp/mut/fnprops.tsv)
+      if [ -z "$PR" ]; then printf '%s\t%s\t%s\n' "$(basename $m)" "not-under-contract" "$desc" >> /tmp/mut/results.tsv; cp $R/orig.go $R/repo/$rel; continue; fi
+      for p in $PR; do
         out=$(/verif/bin/govc -prop $p -tier quick -repo $R/repo -verif /verif -out $R/out -noreplay 2>&1); rc=$?
         if [ $rc -eq 1 ]; then caught="$caught $p"; elif [ $rc -ne 0 ]; then caught="$caught $p(err)"; fi
       done
